@@ -185,19 +185,20 @@ fn vec_case(sink: &mut Sink, id: &str, r: &mut Rng, steps: usize) {
     {
         let cap = [1usize, 2, 4, 16][r.below(4)];
         let mut ov: ObservableVector<Tok> = ObservableVector::with_capacity(cap);
-        let mut plain = Box::pin(ov.subscribe().into_stream());
-        let mut batched = Box::pin(ov.subscribe().into_batched_stream());
+        let mut plain = Some(Box::pin(ov.subscribe().into_stream()));
+        let mut batched = Some(Box::pin(ov.subscribe().into_batched_stream()));
         let (_iv, st) = ov.subscribe().head(3);
         let (_iv2, st2) = (_iv, st).filter(|t: &Tok| t.v % 2 == 0);
-        let (_iv3, mut chain) = { let (v, s) = (_iv2, st2).sort(); (v, Box::pin(s)) };
+        let (_iv3, chain) = { let (v, s) = (_iv2, st2).sort(); (v, Box::pin(s)) };
+        let mut chain = Some(chain);
         let (_iv4, dyn_tail) = ov.subscribe().tail(2);
-        let mut dyn_tail = Box::pin(dyn_tail);
+        let mut dyn_tail = Some(Box::pin(dyn_tail));
         let mut kept: Vec<VectorDiff<Tok>> = vec![];
         let (_f, wk) = flag_waker();
         for _ in 0..steps {
             let len = ov.len();
             let v = r.below(9) as u64;
-            match r.below(16) {
+            match r.below(18) {
                 0 | 1 => ov.push_back(Tok::new(v)),
                 2 => ov.push_front(Tok::new(v)),
                 3 => { ov.pop_back(); }
@@ -210,13 +211,33 @@ fn vec_case(sink: &mut Sink, id: &str, r: &mut Rng, steps: usize) {
                 10 => ov.append((0..r.below(4)).map(|_| Tok::new(r.below(9) as u64)).collect()),
                 11 => { let mut t = ov.transaction(); t.push_back(Tok::new(v)); t.pop_front(); t.insert(0, Tok::new(v)); if r.chance(2, 3) { t.commit(); } }
                 12 if len > 0 => { ov.for_each(|mut e| { if e.v % 3 == 0 { eyeball_im::ObservableVectorEntry::set(&mut e, Tok::new(1)); } else if e.v % 3 == 1 { eyeball_im::ObservableVectorEntry::remove(e); } }); }
+                // a transaction with a random body of 1..3 calls (a single value-carrying diff included); the
+                // subscribers may all go away while it is open
+                13 | 14 => {
+                    let mut t = ov.transaction();
+                    let n = 1 + r.below(3);
+                    for k in 0..n {
+                        let tl = t.len();
+                        match r.below(5) {
+                            0 | 1 => t.push_back(Tok::new(v)),
+                            2 => t.insert(r.below(tl + 1), Tok::new(v)),
+                            3 if tl > 0 => { t.set(r.below(tl), Tok::new(v)); }
+                            _ => { t.pop_front(); }
+                        }
+                        if k == 0 && r.chance(1, 6) { plain = None; batched = None; chain = None; dyn_tail = None; }
+                    }
+                    if r.chance(3, 4) { t.commit(); }
+                }
+                15 if r.chance(1, 4) => {
+                    match r.below(4) { 0 => plain = None, 1 => batched = None, 2 => chain = None, _ => dyn_tail = None }
+                }
                 _ => {
                     let mut cx = Context::from_waker(&wk);
                     for _ in 0..r.below(4) {
-                        if let Poll::Ready(Some(d)) = plain.as_mut().poll_next(&mut cx) { if r.chance(1, 4) { kept.push(d); } }
-                        let _ = batched.as_mut().poll_next(&mut cx);
-                        let _ = chain.as_mut().poll_next(&mut cx);
-                        let _ = dyn_tail.as_mut().poll_next(&mut cx);
+                        if let Some(p) = plain.as_mut() { if let Poll::Ready(Some(d)) = p.as_mut().poll_next(&mut cx) { if r.chance(1, 4) { kept.push(d); } } }
+                        if let Some(b) = batched.as_mut() { let _ = b.as_mut().poll_next(&mut cx); }
+                        if let Some(c) = chain.as_mut() { let _ = c.as_mut().poll_next(&mut cx); }
+                        if let Some(t) = dyn_tail.as_mut() { let _ = t.as_mut().poll_next(&mut cx); }
                     }
                 }
             }
@@ -225,7 +246,12 @@ fn vec_case(sink: &mut Sink, id: &str, r: &mut Rng, steps: usize) {
         // mapped diffs are values too
         let mapped: Vec<VectorDiff<Tok>> = kept.iter().cloned().map(|d| d.map(|t| t)).collect();
         drop(mapped);
-        if r.chance(1, 2) { drop(ov); let mut cx = Context::from_waker(&wk); while let Poll::Ready(Some(_)) = plain.as_mut().poll_next(&mut cx) {} while let Poll::Ready(Some(_)) = chain.as_mut().poll_next(&mut cx) {} }
+        if r.chance(1, 2) {
+            drop(ov);
+            let mut cx = Context::from_waker(&wk);
+            if let Some(p) = plain.as_mut() { while let Poll::Ready(Some(_)) = p.as_mut().poll_next(&mut cx) {} }
+            if let Some(c) = chain.as_mut() { while let Poll::Ready(Some(_)) = c.as_mut().poll_next(&mut cx) {} }
+        }
     }
     let live = LIVE.with(|l| l.borrow().len());
     let d = DOUBLE.with(|d| d.get());
